@@ -139,7 +139,7 @@ def check_case(ctx, c):
 
 def run(ctx):
     quick = ctx.tier == "quick"
-    mt = 3 if quick else 4
+    mt = 4 if quick else 5
     ctx.bounds = {"MaxTasks": mt, "templates": 11}
     res = ctx.tlc("Estimation", constants=dict(MaxTasks=mt, Emitting=True), invariants=INV, action_constraints=["Emit"], coverage=False, timeout=3000)
     if len(res.emitted) < 50:
